@@ -53,9 +53,12 @@ package gorm
 //@   loop 1 invariant copied-so-far: forallkey(k, stmt.Clauses, visited(k) ==> has(newStmt.Clauses, k) && newStmt.Clauses[k] == stmt.Clauses[k]) [C06,C09,C16,C08]
 //@   loop 2 modifies newStmt.Preloads[*]
 //@   loop 2 invariant clauses-all-copied: forallkey(k, stmt.Clauses, has(stmt.Clauses, k) ==> has(newStmt.Clauses, k) && newStmt.Clauses[k] == stmt.Clauses[k])
+//@   loop 2 invariant preloads-copied-so-far: forallkey(k, stmt.Preloads, visited(k) ==> has(newStmt.Preloads, k) && newStmt.Preloads[k] == stmt.Preloads[k]) [C11,C06]
 //@   loop "callback (*sync.Map).Range" modifies newStmt.Settings
 //@   loop "callback (*sync.Map).Range" invariant clauses-all-copied: forallkey(k, stmt.Clauses, has(stmt.Clauses, k) ==> has(newStmt.Clauses, k) && newStmt.Clauses[k] == stmt.Clauses[k])
-//@   ensures fresh-stmt: fresh(result) && fresh(result.Clauses) && fresh(result.Preloads)
+//@   loop "callback (*sync.Map).Range" invariant preloads-all-copied: forallkey(k, stmt.Preloads, has(stmt.Preloads, k) ==> has(newStmt.Preloads, k) && newStmt.Preloads[k] == stmt.Preloads[k]) [C11,C06]
+//@   ensures fresh-stmt: fresh(result) && fresh(result.Clauses) && fresh(result.Preloads) [C06,C11]
+//@   ensures every-preload-copied: forallkey(k, stmt.Preloads, has(stmt.Preloads, k) ==> has(result.Preloads, k) && result.Preloads[k] == stmt.Preloads[k]) [C11,C06]
 //@   ensures chain-state: result.Table == stmt.Table && result.TableExpr == stmt.TableExpr && result.Model == stmt.Model && result.Unscoped == stmt.Unscoped && result.Dest == stmt.Dest && result.Distinct == stmt.Distinct && result.Selects == stmt.Selects && result.Omits == stmt.Omits && result.ColumnMapping == stmt.ColumnMapping && result.Schema == stmt.Schema && result.RaiseErrorOnNotFound == stmt.RaiseErrorOnNotFound && result.SkipHooks == stmt.SkipHooks [C16,C06]
 //@   ensures context: result.Context == stmt.Context [C18]
 //@   ensures connpool: result.ConnPool == stmt.ConnPool [C05,C04]
